@@ -1190,5 +1190,21 @@ proof fn lemma_constructors_injective<T: TypeHash, U: TypeHash>()
 //@  impl_arg
 //@end
 
+//@item @types name=ZC2 <<pub struct ZC2<const A: usize, const B: usize>;>>
+//@end
+
+//@item @derive props=C04,C05,C06 name=ZC2::TypeHash <<impl<const A : usize, const B : usize> epserde::traits::TypeHash for ZC2<A, B> {>>
+//@  replace <<epserde::traits::>> <<>>
+//@  body_prefix
+//@|    /// copy kind, the values of all const parameters in order, then their
+//@|    /// names in order, then the type name (contracts/FORMAT.md, "derived types")
+//@|    open spec fn th() -> Seq<HItem> {
+//@|        seq![HItem::Str("ZeroCopy"@), HItem::Usize(A as nat), HItem::Usize(B as nat),
+//@|             HItem::Str("A"@), HItem::Str("B"@), HItem::Str("ZC2"@)]
+//@|    }
+//@  sub <<fn type_hash(>>
+//@  impl_arg
+//@end
+
 } // verus!
 fn main() {}
